@@ -364,7 +364,24 @@ pub fn gen_odd_leaf(r: &mut Rng) -> Expression {
         8 => act(Action::FilePrint(String::new())),
         9 => act(Action::DefaultPrint),
         10 => act(Action::PrintFormatted(vec![FormatElement::Special(FormatSpecial::Ascii(*r.pick(&[0o400u16, 0x1000, 0xD800, 0xDBFF, 0xDC00, 0xDFFF, 0xFFFE, 0xFFFF])))])),
-        11 => act(Action::PrintFormatted(vec![FormatElement::Literal(String::new()), FormatElement::Literal("a".into()), FormatElement::Literal("b".into())])),
+        11 => {
+            // a parser-normal format with empty literals dropped in (start, middle, end - also after a
+            // final newline escape) and sometimes a doubled element
+            let mut f = gen_format(r, true);
+            let n = 1 + r.usize(2);
+            for _ in 0..n {
+                let pos = if r.chance(1, 2) { f.len() } else { r.usize(f.len() + 1) };
+                f.insert(pos, FormatElement::Literal(String::new()));
+            }
+            if r.chance(1, 4) {
+                f.push(FormatElement::Special(FormatSpecial::Newline));
+            }
+            if r.chance(1, 2) {
+                act(Action::PrintFormatted(f))
+            } else {
+                act(Action::FilePrintFormatted("o".into(), f))
+            }
+        }
         12 => t(Test::Type(vec![FileType::File, FileType::File, FileType::File])),
         _ => act(Action::PrintFormatted(vec![FormatElement::Field(FormatField::AccessFormatted('\0')), FormatElement::Field(FormatField::XAttr(String::new()))])),
     }
@@ -408,9 +425,11 @@ pub fn gen_tree(r: &mut Rng, leaves: usize, leaf: &mut dyn FnMut(&mut Rng) -> Ex
 pub fn related_leaf(l: &Expression, r: &mut Rng) -> Expression {
     fn cmp_var<T: Clone>(c: &Comparison<T>, r: &mut Rng, bump: impl Fn(&T, bool) -> T) -> Comparison<T> {
         let (Comparison::Equal(v) | Comparison::GreaterThan(v) | Comparison::LesserThan(v)) = c;
-        let v = match r.below(4) {
+        let v = match r.below(6) {
             0 => bump(v, true),
             1 => bump(v, false),
+            2 => bump(&bump(v, true), true),
+            3 => bump(&bump(v, false), false),
             _ => v.clone(),
         };
         match r.below(4) {
@@ -517,6 +536,100 @@ pub fn related_leaf(l: &Expression, r: &mut Rng) -> Expression {
             other => other.clone(),
         }),
         other => other.clone(),
+    }
+}
+
+/// Two comparisons of the SAME field side by side (the shape window / range peepholes look for), both
+/// constants from the boundary set of the field's type, in the same or in another unit: `-size +LO -size -HI`,
+/// `-mtime +L -mtime -(L+2)`, `-uid +4294967294 -uid -0` ...; placed under `-a`, `-o` or `,`, sometimes negated,
+/// sometimes with an action before or after. `wild` admits constants whose meaning is unspecified (time
+/// spans beyond 64 bits): fine for crash and profile monitors, not for semantic comparison.
+pub fn pair_case(r: &mut Rng, wild: bool) -> Expression {
+    fn cmp_k<T>(k: u64, v: T) -> Comparison<T> {
+        match k % 3 {
+            0 => Comparison::GreaterThan(v),
+            1 => Comparison::LesserThan(v),
+            _ => Comparison::Equal(v),
+        }
+    }
+    let b32: [u32; 10] = [0, 1, 2, 3, 4, (1 << 31) - 1, 1 << 31, u32::MAX - 2, u32::MAX - 1, u32::MAX];
+    let b64: [u64; 14] = [0, 1, 2, 3, 4, (1 << 31) - 1, 1 << 32, (1 << 63) - 1, 1 << 63, (1 << 63) + 1, u64::MAX - 3, u64::MAX - 2, u64::MAX - 1, u64::MAX];
+    let (k1, k2) = (r.below(3), r.below(3));
+    // the second constant: an independent boundary value, or first + d (wrapping), d in -2..=3
+    let rel = |r: &mut Rng, v: u64, pool: &[u64]| -> u64 {
+        if r.chance(1, 2) {
+            v.wrapping_add(r.below(6)).wrapping_sub(2)
+        } else {
+            pool[r.usize(pool.len())]
+        }
+    };
+    let (a, b) = match r.below(9) {
+        0..=3 => {
+            let f = r.below(5);
+            let v1 = b32[r.usize(b32.len())];
+            let pool: Vec<u64> = b32.iter().map(|x| *x as u64).collect();
+            let v2 = (rel(r, v1 as u64, &pool) & 0xffff_ffff) as u32;
+            let mk = |f: u64, c: Comparison<u32>| match f {
+                0 => Test::UserId(c),
+                1 => Test::GroupId(c),
+                2 => Test::InodeNumber(c),
+                3 => Test::MirrorCount(c),
+                _ => Test::StripeCount(c),
+            };
+            (t(mk(f, cmp_k(k1, v1))), t(mk(f, cmp_k(k2, v2))))
+        }
+        4 => {
+            let v1 = b64[r.usize(b64.len())];
+            let v2 = rel(r, v1, &b64);
+            (t(Test::Links(cmp_k(k1, v1))), t(Test::Links(cmp_k(k2, v2))))
+        }
+        5 | 6 => {
+            // sizes: the second constant lies k units of either unit away from the first, in bytes
+            let (u1, u2) = (r.below(7), r.below(7));
+            let (m1, m2) = (crate::findsem::UNITS_SIZE[u1 as usize].1, crate::findsem::UNITS_SIZE[u2 as usize].1);
+            let max1 = u64::MAX / m1;
+            let n1 = match r.below(6) {
+                0 => max1 - r.below(3),
+                1 => r.below(4),
+                2 => 1024 * r.below(5),
+                _ => r.below(40),
+            }
+            .min(max1);
+            let bytes1 = (n1 as u128) * (m1 as u128);
+            let step = if r.chance(1, 2) { m1 } else { m2 } as i128;
+            let bytes2 = (bytes1 as i128 + (r.below(7) as i128 - 3) * step).max(0) as u128;
+            let n2 = ((bytes2 + if r.chance(1, 2) { m2 as u128 - 1 } else { 0 }) / m2 as u128).min((u64::MAX / m2) as u128) as u64;
+            (t(Test::Size(cmp_k(k1, mk_size(u1, n1)))), t(Test::Size(cmp_k(k2, mk_size(u2, n2)))))
+        }
+        _ => {
+            let f = r.below(3);
+            let (u1, u2) = (r.below(4), if r.chance(2, 3) { 9 } else { r.below(4) });
+            let u2 = if u2 == 9 { u1 } else { u2 };
+            let small: [u64; 9] = [0, 1, 2, 3, 23, 24, 59, 60, 61];
+            let pool: Vec<u64> = if wild { small.iter().cloned().chain([u64::MAX - 2, u64::MAX - 1, u64::MAX, 1 << 63]).collect() } else { small.to_vec() };
+            let n1 = pool[r.usize(pool.len())];
+            let n2 = rel(r, n1, &pool);
+            let n2 = if wild { n2 } else { n2 % 100_000 };
+            let mk = |f: u64, c: Comparison<TimeSpec>| match f {
+                0 => Test::AccessTime(c),
+                1 => Test::ChangeTime(c),
+                _ => Test::ModifyTime(c),
+            };
+            (t(mk(f, cmp_k(k1, mk_time(u1, n1)))), t(mk(f, cmp_k(k2, mk_time(u2, n2)))))
+        }
+    };
+    let (a, b) = (if r.chance(1, 8) { not(a) } else { a }, if r.chance(1, 8) { not(b) } else { b });
+    let core = match r.below(6) {
+        0 | 1 | 2 => and(a, b),
+        3 => or(a, b),
+        4 => list(a, b),
+        _ => and(and(t(Test::True), a), b),
+    };
+    match r.below(5) {
+        0 => and(core, act(Action::Print)),
+        1 => and(act(Action::FilePrint("o".into())), core),
+        2 => or(core, t(Test::Name("x".into()))),
+        _ => core,
     }
 }
 
